@@ -1,6 +1,7 @@
 package worlds
 
 import (
+	"errors"
 	"fmt"
 	"sort"
 	"strings"
@@ -265,7 +266,7 @@ func (n *network) evJoinMe(c *netChan) {
 	}
 	// JOIN echo: the client creates the channel and asks for MODE and WHO
 	n.v.chans[c.name] = &vChan{mem: map[string]*state.ChanPrivs{n.v.me: {}}}
-	n.send(":"+n.me.src()+" JOIN "+c.name, []string{n.me.nick, c.name}, true)
+	n.send(":"+n.me.src()+" JOIN "+[]string{"", ":"}[n.g.S.Choose(2)]+c.name, []string{n.me.nick, c.name}, true)
 	if c.topic != "" {
 		n.v.chans[c.name].topic = c.topic
 		n.send(":irc.sim 332 "+n.me.nick+" "+c.name+" :"+c.topic, []string{c.name}, true)
@@ -326,7 +327,7 @@ func (n *network) evJoinOther(u *netUser, c *netChan) {
 		n.v.nicks[u.nick] = &vNick{ident: u.ident, host: u.host}
 	}
 	n.v.chans[c.name].mem[u.nick] = &state.ChanPrivs{}
-	n.send(":"+u.src()+" JOIN "+c.name, []string{u.nick, c.name}, true)
+	n.send(":"+u.src()+" JOIN "+[]string{"", ":"}[n.g.S.Choose(2)]+c.name, []string{u.nick, c.name}, true)
 }
 
 // leave: PART or KICK of u from c
@@ -346,7 +347,8 @@ func (n *network) evLeave(u *netUser, c *netChan, kick bool) {
 		if kicker != nil {
 			src = kicker.src()
 		}
-		n.send(":"+src+" KICK "+c.name+" "+u.nick+" :bye", []string{u.nick, c.name}, true)
+		// the comment is optional in the protocol
+		n.send(":"+src+" KICK "+c.name+" "+u.nick+[]string{" :bye", " :bye", "", " :"}[n.g.S.Choose(4)], []string{u.nick, c.name}, true)
 	} else {
 		msg := ""
 		if n.g.S.Choose(2) == 0 {
@@ -387,7 +389,7 @@ func (n *network) evQuit(u *netUser) {
 	u.quit = true
 	delete(n.v.nicks, u.nick)
 	if visible {
-		n.send(":"+u.src()+" QUIT :gone", names, true)
+		n.send(":"+u.src()+" QUIT"+[]string{" :gone", " :gone", "", " :"}[n.g.S.Choose(4)], names, true)
 	}
 }
 
@@ -415,7 +417,7 @@ func (n *network) evNick(u *netUser, neu string) {
 		delete(n.who352, old)
 	}
 	if visible {
-		n.send(":"+src+" NICK "+neu, []string{old, neu}, true)
+		n.send(":"+src+" NICK "+[]string{"", ":"}[n.g.S.Choose(2)]+neu, []string{old, neu}, true)
 	}
 }
 
@@ -906,6 +908,32 @@ func trackRun(e *Env) {
 	}
 	simrt.BlockFor("track", "welcome", time.Hour, func() bool { return ready })
 	simrt.Settle(time.Second)
+	if g.Pct(30) {
+		// a watchdog that keeps calling Connect and EnableStateTracking on the
+		// live client: both are refused / no-ops and must not disturb the
+		// processing of lines that arrive meanwhile
+		e.S.Count("fault.redundant-connect-and-enable-calls")
+		e.DialDeny = func() error {
+			if t := e.S.Self(); t != nil && strings.HasPrefix(t.ID, "watchdog") {
+				return errors.New("sim: connection refused")
+			}
+			return nil
+		}
+		e.S.Spawn("watchdog", func() {
+			for k := 0; k < 1500 && !ended && !e.S.Failed(); k++ {
+				if e.S.Choose(2) == 0 {
+					c.Connect()
+				} else {
+					c.EnableStateTracking()
+				}
+				if e.S.Choose(4) == 0 {
+					simrt.Sleep(time.Duration(e.S.Choose(3)) * time.Millisecond)
+				} else {
+					simrt.Sleep(0)
+				}
+			}
+		})
+	}
 
 	uniq := 0
 	nickSeq := 0
